@@ -239,9 +239,10 @@ func genHook(pkg string, all []pkgVar) ([]byte, []pkgVar) {
 		}
 	}
 	sort.Slice(vars, func(i, j int) bool { return vars[i].Name < vars[j].Name })
-	var body bytes.Buffer
+	var body, light bytes.Buffer
 	for i := range vars {
 		v := &vars[i]
+		before := body.Len()
 		switch {
 		case immutable[v.Name] || strings.HasPrefix(v.Name, "err"):
 			v.Class = "immutable-after-init"
@@ -256,8 +257,13 @@ func genHook(pkg string, all []pkgVar) ([]byte, []pkgVar) {
 		default:
 			v.Class = "unknown"
 		}
+		// the light reset leaves out the (512 KB) descriptor map: used with never-seen-before types
+		if v.Name != "sds" {
+			light.Write(body.Bytes()[before:])
+		}
 	}
 	if pkg == "internal/reflect" {
+		light.WriteString("\tdefs.VerifReset()\n")
 		body.WriteString("\tdefs.VerifReset()\n")
 		pkgImports[pkg][impSpec{"defs", "github.com/cloudwego/frugal/internal/defs"}] = true
 	}
@@ -280,6 +286,8 @@ func genHook(pkg string, all []pkgVar) ([]byte, []pkgVar) {
 	b.WriteString("// VerifReset returns every cache, pool and scratch variable of this package to\n// its initial state: the next call behaves like the first call of a fresh process.\n")
 	b.WriteString("func VerifReset() {\n")
 	b.Write(body.Bytes())
+	b.WriteString("}\n\n// VerifResetLight is VerifReset without re-creating the descriptor map (descriptors of\n// types used so far stay registered): for executions that only use never-seen-before types.\nfunc VerifResetLight() {\n")
+	b.Write(light.Bytes())
 	b.WriteString("}\n")
 	out, err := format.Source(b.Bytes())
 	if err != nil {
